@@ -42,6 +42,43 @@ def path_type(F, struct, p):
     return ty["s"] if ty else None
 
 
+def path_owner(F, struct, p):
+    """(short name of the struct that declares the last field of path 'self.a.b', rust type string of that field)"""
+    import ir
+    s_ = struct
+    owner, ty = struct, None
+    for name in p.split(".")[1:]:
+        if name.startswith("@") or name.isdigit():
+            continue
+        fd = [f for f in (F.struct_fields(s_) or []) if f["name"] == name]
+        if not fd:
+            return None
+        owner, ty = s_, fd[0]["ty"]
+        if ty.get("k") == "adt" and ty.get("krate") == F.d["crate"]:
+            s_ = ir.short(ty["path"])
+    return (owner, ty["s"]) if ty else None
+
+
+def origin_signature(F, struct, term_or_paths):
+    """name-free description of where a value comes from: the declaring type and rust type of every state path it reads
+    (field and local names do not appear, so a consistent rename leaves the signature unchanged)"""
+    from terms import subterms
+    if isinstance(term_or_paths, (set, list)):
+        paths = set(term_or_paths)
+        other = set()
+    else:
+        paths = {x[1] for x in subterms(term_or_paths) if x[0] == "pre"}
+        other = {"input" for x in subterms(term_or_paths) if x[0] in ("arg", "get")}
+    parts = set()
+    for p_ in paths:
+        o = path_owner(F, struct, p_)
+        if o is None:
+            parts.add("?")
+        elif "f64" in o[1]:  # data-carrying state only: cursors, counters and flags steer the selection, they are not the value
+            parts.add("%s.%s" % (o[0], o[1].replace("std::boxed::", "")))
+    return "+".join(sorted(parts) + sorted(other)) or "const"
+
+
 def premises(kind):
     """kind: 'positive' (C07/C08: positive prices, valid bars, volume >= 0) | 'finite' (C09: any finite input, low <= high)"""
     atoms = {}
